@@ -79,10 +79,19 @@ extern void *mpt_array_set(MPT_STRUCT(array) *arr, const MPT_STRUCT(type_traits)
 		 || (MPT_ENUM(BufferShared) & flags)) {
 			/* keep existing data after assigned range */
 			size_t need = (total < buf->_used) ? buf->_used : total;
-			if (!(buf = buf->_vptr->detach(buf, need))) {
+			MPT_STRUCT(buffer) *next;
+			/* source elements may be part of array content */
+			uintptr_t base = (uintptr_t) (buf + 1), from = (uintptr_t) data;
+			int own = data && (from >= base) && (from - base < buf->_used);
+			
+			if (!(next = buf->_vptr->detach(buf, need))) {
 				return 0;
 			}
-			arr->_buf = buf;
+			/* unshared content was moved to new location */
+			if (own && (next != buf) && !(MPT_ENUM(BufferShared) & flags)) {
+				data = ((uint8_t *) (next + 1)) + (from - base);
+			}
+			arr->_buf = buf = next;
 		}
 	}
 	if ((off = mpt_buffer_set(buf, traits, pos, data, len)) < 0) {
